@@ -283,6 +283,21 @@ func (p *proc) call(req request, timeout time.Duration) (res *h.Result, crashed 
 	}
 }
 
+// fingerprint: what two executions of one run must have in common (output digest, kernel steps, verdicts).
+func fingerprint(r *h.Result) string {
+	var sigs []string
+	hasRace := false
+	for _, v := range r.Violations {
+		if v.Class == "data-race" {
+			hasRace = true // which racing pair is printed is detector-internal; that a race is reported is not
+			continue
+		}
+		sigs = append(sigs, v.Property+"|"+v.Class+"|"+v.Signature)
+	}
+	sort.Strings(sigs)
+	return fmt.Sprintf("digest=%s steps=%d cases=%d race=%v viol=%s", r.Digest, r.Stats["steps"], r.Stats["cases"], hasRace, strings.Join(sigs, ";"))
+}
+
 func clip(s string, n int) string {
 	if len(s) <= n {
 		return s
@@ -401,10 +416,15 @@ func supervise(prop, tier string) int {
 		failing   = map[string]*h.Result{} // signature -> first (lowest run) result
 		harnessEr []string
 	)
+	const probeRuns = 12 // re-executed in another process at the end: replay is only as good as determinism
+	fps := map[int]string{}
 	merge := func(res *h.Result) {
 		mu.Lock()
 		defer mu.Unlock()
 		done++
+		if res.Run < probeRuns {
+			fps[res.Run] = fingerprint(res)
+		}
 		for k, v := range res.Stats {
 			stats[k] += v
 		}
@@ -485,6 +505,37 @@ func supervise(prop, tier string) int {
 		}()
 	}
 	wg.Wait()
+	// determinism probe: the first runs again, in a fresh process and in the opposite order; a difference in output
+	// digest, kernel step count or verdict means some source of nondeterminism escaped the seams (an uninstrumented
+	// construct introduced by an edit of the code under test, say) and nothing this check reports would replay
+	var probeEr []string
+	if len(harnessEr) == 0 {
+		var p *proc
+		for run := probeRuns - 1; run >= 0; run-- {
+			want, ok := fps[run]
+			if !ok || strings.Contains(want, "worker_crashes") {
+				continue
+			}
+			if p == nil || d.Race {
+				p.stop()
+				var err error
+				if p, err = startProc(d.Race); err != nil {
+					break
+				}
+			}
+			res, crashed, _, err := p.call(request{Cmd: "run", Property: prop, Seed: seed, Run: run, Tier: tier}, 5*time.Minute)
+			if err != nil || crashed {
+				p.stop()
+				p = nil
+				continue
+			}
+			stats["determinism_probe_runs"]++
+			if got := fingerprint(res); got != want {
+				probeEr = append(probeEr, fmt.Sprintf("nondeterministic execution of run %d:\n  first:  %s\n  second: %s", run, clip(want, 300), clip(got, 300)))
+			}
+		}
+		p.stop()
+	}
 	wall := time.Since(start).Seconds()
 
 	if len(harnessEr) > 0 {
@@ -539,6 +590,14 @@ func supervise(prop, tier string) int {
 	}
 	for _, l := range knownLines {
 		fmt.Println(l)
+	}
+	if exit == 0 && len(probeEr) > 0 {
+		// nothing else to report, but executions of one run differ: not a verdict on the property (the C10 check has
+		// its own oracle for output that differs between identical executions), and not a state to call "held"
+		for _, e := range probeEr {
+			fmt.Fprintln(os.Stderr, "HARNESS:", e)
+		}
+		exit = 2
 	}
 	writeEvidence(d, tier, seed, done, stats, cover, samples, nviol, wall, knownLines)
 	fmt.Printf("simcheck: %s %s: %d/%d runs, %d cases, %.1fs, %d violation signature(s), %d known finding(s)\n", prop, tier, done, nruns, stats["cases"], wall, nviol, len(knownLines))
@@ -798,19 +857,6 @@ func selftest(args []string) int {
 		seed, _ = strconv.ParseUint(args[3], 10, 64)
 	}
 	tier := envOr("SIM_SELFTEST_TIER", "quick")
-	fingerprint := func(r *h.Result) string {
-		var sigs []string
-		hasRace := false
-		for _, v := range r.Violations {
-			if v.Class == "data-race" {
-				hasRace = true // which racing pair is printed is detector-internal; that a race is reported is not
-				continue
-			}
-			sigs = append(sigs, v.Property+"|"+v.Class+"|"+v.Signature)
-		}
-		sort.Strings(sigs)
-		return fmt.Sprintf("digest=%s steps=%d cases=%d race=%v viol=%s", r.Digest, r.Stats["steps"], r.Stats["cases"], hasRace, strings.Join(sigs, ";"))
-	}
 	type cfg struct {
 		name  string
 		procs string
